@@ -103,6 +103,7 @@ Example C02_example :
 Proof. vm_compute. repeat split. Qed.
 
 (* ---------- FSM (model: the FSM part of Model/Dsl.v; proofs in Proofs/DslP.v) ---------- *)
+From V.Model Require Import Derived.
 (* State encodings are allocated on first reference (State(name), `m.next = name`, fsm.ongoing(name)), whatever the
    order: the names are distinct, the codes are 0, 1, 2, .. in order of first reference, and exactly the referenced
    names have a code. *)
